@@ -13,6 +13,7 @@ PROPS = {
     'C02': {'units': ['opt'], 'kani': K_ANALYSIS + [{'crate': 'p3-circuit', 'harness': 'c02_allocator_monotone'}], 'exclude': r'H_dup_out_unmentioned'},
     'C03': {'units': ['opt'], 'kani': K_ANALYSIS},
     'C19': {'units': [], 'kani': K_CONTEXT},
+    'C20': {'units': ['gad'], 'kani': []},
 }
 
 TB_COMMON = ['p3 field types satisfy the field laws the lemmas name; machine field arithmetic treated as mathematical',
@@ -49,8 +50,19 @@ META = {
     },
 }
 
+META['C20'] = {
+    'technique': 'Verus contracts on extracted real gadget functions over an abstract field',
+    'text': 'Deductive proof, for every field satisfying the ring/inverse laws, every domain size/shift, every exponent and every input value, that the gadget '
+            'functions return a target whose value is the native formula: exp_power_of_2 = x^(2^k) (loop invariant), mul_many = product, inner_product = dot product, '
+            'select, vanishing_poly_at_point_circuit = the value of the native helper vanishing_poly_at_point_native (both under contract), '
+            'selectors_at_point_circuit (both PCS impls) = the four native Lagrange selector formulas of p3-commit.',
+    'note': 'Assumed (proved elsewhere or trusted): builder arithmetic contracts (value of add/sub/mul/div/mul_add/define_const under one fixed input assignment); '
+            'native formulas transcribed from p3-commit 0.6.3; R11 type erasure of SC/PCS generics to a Field/PcsStub/CosetStub prelude (logged per function). '
+            'Not yet under contract: compute_quotient_chunk_products, compute_quotient_evaluation, periodic evaluate_one, evaluate_polynomial, circuit_exp_by_constant.',
+}
+
 NOT_APPLICABLE = {
     'C01': 'whole-verifier equivalence with the external native verifier (p3-uni-stark / p3-batch-stark): needs a relational spec of ~1.5 kLoC of dependency code across four generic traits; no per-function contract within reach expresses it. Its parts are decided under C05/C07/C08/C13/C14/C15/C20.',
 }
-for _p in ['C04', 'C05', 'C06', 'C07', 'C08', 'C09', 'C10', 'C11', 'C12', 'C13', 'C14', 'C15', 'C16', 'C17', 'C18', 'C20']:
+for _p in ['C04', 'C05', 'C06', 'C07', 'C08', 'C09', 'C10', 'C11', 'C12', 'C13', 'C14', 'C15', 'C16', 'C17', 'C18']:
     NOT_APPLICABLE.setdefault(_p, 'not reached yet: kernel designed in DESIGN.md §5 but its contracts are not built; not claimed')
